@@ -66,9 +66,11 @@ def render_osu(ab, meta=None):
          f"Version:{meta.get('version', 'Hard')}", "Source:", "Tags:", "BeatmapID:0", "BeatmapSetID:-1", "", "[Difficulty]", "HPDrainRate:8", f"CircleSize:{keys}",
          "OverallDifficulty:8", "ApproachRate:5", "SliderMultiplier:1.4", "SliderTickRate:1", "", "[Events]", "//Background and Video events", '0,0,"bg.png",0,0',
          "//Storyboard Sound Samples", "", "[TimingPoints]"]
+    tps = []
     for m, v in ab["tempo"]:
         t = ms_of_q(ab, 16 * m)
-        L.append(f"{float(t)},{repr(60000.0 / v)},4,0,0,50,1,0")
+        tps.append(f"{float(t)},{repr(60000.0 / v)},4,0,0,50,1,0")
+    L += tps[::-1] if ab.get("tempo_rows_reversed") else tps
     L += ["", "", "[HitObjects]"]
     for c, q0, q1 in ab["notes"]:
         x = int((512 * c + 256) // keys)
@@ -89,6 +91,8 @@ def render_qua(ab, meta=None):
            "DifficultyName": meta.get("version", "Hard"), "Description": "", "EditorLayers": [], "CustomAudioSamples": [], "SoundEffects": [],
            "TimingPoints": [{"StartTime": float(ms_of_q(ab, 16 * m)), "Bpm": v} for m, v in ab["tempo"]], "SliderVelocities": [],
            "HitObjects": [dict({"StartTime": int(ms_of_q(ab, q0)), "Lane": c + 1, "KeySounds": []}, **({} if q1 is None else {"EndTime": int(ms_of_q(ab, q1))})) for c, q0, q1 in ab["notes"]]}
+    if ab.get("tempo_rows_reversed"):
+        doc["TimingPoints"] = doc["TimingPoints"][::-1]
     for d in doc["TimingPoints"] + doc["HitObjects"]:
         if d.get("StartTime") == 0:
             d.pop("StartTime")
